@@ -4,6 +4,8 @@ import M3d.Lemmas.C17Bezier
 import M3d.Lemmas.C17Split
 import M3d.Lemmas.C17Seg
 import M3d.Lemmas.C17Svd2
+import M3d.Lemmas.C17Vec
+import M3d.Lemmas.C17PolyMul
 import M3d.Gen.Binomial
 /-!
 # C17 — numerical and curve kernels satisfy their defining equations
@@ -447,6 +449,54 @@ end VecSqrt
 example : (V3.cross (⟨1, 2, 3⟩ : V3 ℚ) ⟨4, 5, 6⟩) = ⟨-3, 6, -3⟩ := by decide +kernel
 example : (V2.normalize (fun _ => (5 : ℚ)) ⟨3, 4⟩) = ⟨3/5, 4/5⟩ := by decide +kernel
 
+/-! ## Vectors of any length (`numerical.Vec`, `numerical/vecs.go`)
+
+`VecN.normSquared scale distSquared norm dist normalize zeros` are tied to the definitions REGENERATED from the
+source (loops over slices) by `Lemmas/KernelsTiePoly.lean`; `add sub dot projectOut` are compared by the `vec` kinds. -/
+
+section VecN
+variable [LinearOrder K] [IsStrictOrderedRing K]
+
+/-- `Vec.NormSquared` (the loop `res += x*x`) is the sum of the squared components: non-negative, and zero only on
+the zero vector. -/
+theorem vecN_normSquared_sum (v : List K) :
+    VecN.normSquared v = (v.map (fun x => x * x)).sum ∧ 0 ≤ VecN.normSquared v ∧
+      (VecN.normSquared v = 0 ↔ ∀ x ∈ v, x = 0) :=
+  ⟨VecN.normSquared_eq_sum v, VecN.normSquared_nonneg v, VecN.normSquared_eq_zero_iff v⟩
+
+/-- `Vec.Scale` multiplies every component, so the squared norm scales by `s²`. -/
+theorem vecN_scale_normSquared (v : List K) (s : K) :
+    VecN.scale v s = v.map (· * s) ∧ VecN.normSquared (VecN.scale v s) = s * s * VecN.normSquared v :=
+  ⟨rfl, VecN.normSquared_scale v s⟩
+
+/-- `Vec.Normalize` returns a unit vector for every non-zero vector, for any `sqrt` whose square at the squared
+norm is that squared norm. -/
+theorem vecN_normalize_unit (sqrtF : K → K) (v : List K)
+    (hs : sqrtF (VecN.normSquared v) * sqrtF (VecN.normSquared v) = VecN.normSquared v)
+    (hn : VecN.normSquared v ≠ 0) : VecN.normSquared (VecN.normalize sqrtF v) = 1 :=
+  VecN.normalize_unit sqrtF v hs hn
+
+/-- `Vec.DistSquared` is the squared norm of the component-wise difference, and symmetric. -/
+theorem vecN_distSquared_eq (v w : List K) :
+    VecN.distSquared v w = VecN.normSquared (List.zipWith (· - ·) v w) ∧
+      VecN.distSquared v w = VecN.distSquared w v :=
+  ⟨VecN.distSquared_eq_normSquared v w, VecN.distSquared_comm v w⟩
+
+/-- `Vec.ProjectOut(v1)` removes the component along `v1`: for vectors of equal length (otherwise Go panics) the
+result has the same length and its dot product with `v1` is 0. -/
+theorem vecN_projectOut_orthogonal (sqrtF : K → K) (v w : List K) (hl : v.length = w.length)
+    (hs : sqrtF (VecN.normSquared w) * sqrtF (VecN.normSquared w) = VecN.normSquared w)
+    (hn : VecN.normSquared w ≠ 0) :
+    ∃ r, VecN.projectOut sqrtF v w = some r ∧ r.length = v.length ∧ VecN.dot r w = some 0 :=
+  VecN.projectOut_orthogonal sqrtF v w hl hs hn
+
+end VecN
+
+example : VecN.normalize (fun _ => (5 : ℚ)) [3, 4] = [3/5, 4/5] := by decide +kernel
+example : VecN.projectOut (fun _ => (5 : ℚ)) [1, 2] [3, 4] = some [-8/25, 6/25] := by decide +kernel
+example : VecN.dot [(-8/25 : ℚ), 6/25] [3, 4] = some 0 := by decide +kernel
+example : VecN.distSquared [(1 : ℚ), 2, 3] [3, 2, 1] = 8 := by decide +kernel
+
 /-! ## Polynomials (`numerical/polynomial.go`) -/
 
 /-- `Polynomial.Eval` (the running-power loop) computes the value of the polynomial. -/
@@ -462,6 +512,13 @@ theorem poly_eval_add [DecidableEq K] (p q : List K) (x : K) :
 theorem poly_eval_mul (p q : List K) (x : K) :
     Poly.eval (Poly.mul p q) x = Poly.eval p x * Poly.eval q x := by
   simp only [Poly.eval_eq_spec, Poly.evalSpec_mul]
+
+/-- `Polynomial.Mul` AS WRITTEN — the double loop `res[i+j] += x*y` over a zeroed slice of length
+`len p + len p1 − 1`, additions in the order of the loops (`Poly.mulLoop`, the model the bit-mode kind `poly.f mul`
+runs at `Float`) — computes the sum of shifted rows `Poly.mul` (the model of `poly_eval_mul`), and so multiplies values. -/
+theorem poly_mul_loop_eq (p q : List K) : Poly.mulLoop p q = Poly.mul p q := Poly.mulLoop_eq_mul p q
+
+example : Poly.mulLoop [(1 : ℚ), 2, 3] [4, 5] = [4, 13, 22, 15] := by decide +kernel
 
 /-- `Polynomial.Scale` scales values. -/
 theorem poly_eval_scale (p : List K) (c x : K) :
